@@ -30,7 +30,7 @@ def one(args):
     try:
         dst = os.path.join(tmp, 'repo')
         shutil.copytree('/repo', dst, ignore=shutil.ignore_patterns(
-            '.git', '__pycache__', '*.pyc', 'doc', 'releasenotes'))
+            '.git', '__pycache__', '*.pyc', 'releasenotes'))
         r = subprocess.run(['git', 'apply', '--whitespace=nowarn',
                             os.path.join(d, 'patch.diff')], cwd=dst,
                            capture_output=True, text=True)
